@@ -6,7 +6,8 @@ META = dict(
               "restart, advance tick} on a real Logger+Log driven through its runner generator, files on an in-memory "
               "file system, step-by-step comparison with a reference model of the statement",
     text="For each of the 7 rules x field selection {all, one} (plus, for change and update, logs with two - thorough also three - loggees, "
-         "each with its own write operation): breadth-first search, with canonical-state dedupe, over every history "
+         "each with its own write operation, and two-loggee logs whose first or second loggee has never been stamped and is written "
+         "with the non-stamping Share.change): breadth-first search, with canonical-state dedupe, over every history "
          "of up to 6 (quick) / 12 (thorough) operations after START from the alphabet {RUN, tick, write same value, write different "
          "value, write other field, push to deck / append to streak list (a proper entry by a producer that re-fetches the container from the "
          "share each time, the same by a producer holding the container it obtained once, or the next of None, 0, '', {}, []), STOP+START "
@@ -592,6 +593,9 @@ def run():
         "with its last logged value, 'update' counts a stamped write to any loggee",
         "queue rules: 'the queue' is the container object the producer put into the share (streak: the list in field a, deck: share.deck); "
         "a producer may keep its reference to it, so after every run that same object must be empty and later appends through it must be logged",
+        "fields=two-x0 / two-y0: loggee x / y is initialised and written with Share.change(), which leaves share.stamp None; such a write "
+        "is not an 'update' (no record promised by rule update) but is a value change for rule change; stamped updates of the other "
+        "loggee must be recorded whatever the position of the unstamped one",
         "canonical state = logger status/desire, ages (in ticks) of log, share and logger stamps, share values, queue contents by element kind, last-logged values, "
         "file-open flags, plus the reference's own state; histories reaching the same canonical state are expanded once",
     ]
